@@ -283,7 +283,9 @@ def build(case):
         else:
             cd["ic"] = None
         if base != "ode" and terms.get("boundary"):
-            cd["boundary"] = {"f": [rand_poly(rng, din, 1, 2) for _ in range(m)], "border": border}
+            # `bdim`: the component the condition applies to (omega_boundary_dim), None = all components
+            cd["boundary"] = {"f": [rand_poly(rng, din, 1, 2) for _ in range(m)], "border": border,
+                              "dim": terms.get("bdim") if m > 1 else None}
         else:
             cd["boundary"] = None
         if base == "statio" and terms.get("norm"):
@@ -297,14 +299,19 @@ def build(case):
         else:
             cd["norm_ns"] = None
         ob = case.get("obs")
+        # per-unknown obs_slice specification (jnp.s_[k:k+1]); it exists whether or not u has observations
+        sl = None
+        if ob is not None and m > 1:
+            sl = (ob.get("slices") or {}).get(u, 0 if ob.get("slice") else None)
+        cd["obs_slice"] = sl
         if ob is not None and (not issys or u in ob.get("unknowns", unknowns)):
-            mo = 1 if ob.get("slice") else m
+            mo = 1 if sl is not None else m
             orows = []
             for name in ob.get("eq_keys", []):
                 col = rng.sample([Fraction(x, 2) for x in range(-4, 5)], B)
                 orows.append((name, [[x] for x in col]))
             cd["obs"] = {"pin": pts(B, din), "val": [[Fraction(rng.randint(-3, 3)) for _ in range(mo)] for _ in range(B)],
-                         "rows": orows, "slice": bool(ob.get("slice"))}
+                         "rows": orows, "slice": sl}
         else:
             cd["obs"] = None
         pr["cons"][u] = cd
@@ -464,7 +471,8 @@ def single_json(pr, u, weights, with_dyn, param_rows_json, unit=False):
     if cd["boundary"] is not None:
         n = din + K
         subs_f = [P.var(n, j) for j in range(din)]
-        f = [pr["nets"][u][c] - compose(cd["boundary"]["f"][c], subs_f, n) for c in range(m)]
+        comps = range(m) if cd["boundary"]["dim"] is None else [cd["boundary"]["dim"]]
+        f = [pr["nets"][u][c] - compose(cd["boundary"]["f"][c], subs_f, n) for c in comps]
         nfac = 2 * pr["d"]
         for fa in range(nfac):
             xs = [[q(cd["boundary"]["border"][i][j][fa]) for j in range(din)] for i in range(B)]
@@ -481,7 +489,8 @@ def single_json(pr, u, weights, with_dyn, param_rows_json, unit=False):
         mo = len(ob["val"][0])
         L = din + mo
         net = _lift_net(pr, u, L)
-        f = [net[c] - P.var(L + K, din + c) for c in range(mo)]
+        comps = list(range(mo)) if ob["slice"] is None else [ob["slice"]]
+        f = [net[c] - P.var(L + K, din + i) for i, c in enumerate(comps)]
         s["obs"] = {"w": q(w("observations")), "xs": [[q(x) for x in a + b] for a, b in zip(ob["pin"], ob["val"])],
                     "f": pv(f)}
         s["obs_rows"] = [[k, [[q(x) for x in r] for r in rows]] for k, rows in ob["rows"]]
@@ -703,6 +712,9 @@ def make_world(case, pr=None):
         else:
             if cd["boundary"] is not None:
                 fpol = cd["boundary"]["f"]
+                if cd["boundary"]["dim"] is not None:
+                    fpol = [fpol[cd["boundary"]["dim"]]]
+                kw["omega_boundary_dim"] = cd["boundary"]["dim"]
                 if base == "statio":
                     kw["omega_boundary_fun"] = lambda dx, fpol=fpol: jnp.stack([jpoly(p, dx) for p in fpol])
                 else:
@@ -712,6 +724,7 @@ def make_world(case, pr=None):
             else:
                 kw["omega_boundary_fun"] = None
                 kw["omega_boundary_condition"] = None
+                kw["omega_boundary_dim"] = None
             nm = cd["norm"] if cd["norm"] is not None else cd.get("norm_ns")
             if nm is not None:
                 kw["norm_samples"] = arr(nm["samples"])
@@ -725,8 +738,8 @@ def make_world(case, pr=None):
                     kw["initial_condition_fun"] = lambda x, icp=icp: jnp.stack([jpoly(p, x) for p in icp])
                 else:
                     kw["initial_condition_fun"] = None
-        ob = cd["obs"]
-        kw["obs_slice"] = jnp.s_[0:1] if (ob is not None and ob["slice"]) else None
+        sl = cd["obs_slice"]
+        kw["obs_slice"] = jnp.s_[sl:sl + 1] if sl is not None else None
         return kw
 
     world = {"pr": pr, "params": params, "params_alt": params_alt, "batch": batch, "nets": nets,
@@ -827,6 +840,7 @@ def make_system(case, world):
         u_dict=nets, dynamic_loss_dict=dyn,
         omega_boundary_fun_dict={u: kws[u]["omega_boundary_fun"] for u in unknowns},
         omega_boundary_condition_dict={u: kws[u]["omega_boundary_condition"] for u in unknowns},
+        omega_boundary_dim_dict={u: kws[u]["omega_boundary_dim"] for u in unknowns},
         norm_samples_dict={u: kws[u]["norm_samples"] for u in unknowns},
         norm_int_length_dict={u: kws[u]["norm_int_length"] for u in unknowns},
         obs_slice_dict=obs_slice,
